@@ -8,6 +8,15 @@ import core
 import semcheck
 import semprop
 
+import os
+import time
+
+
+def _tick(ctx, what):
+    if os.environ.get("VERIF_PROFILE"):
+        print(f"[profile] {what}: {time.time() - ctx.t0:.1f} s", flush=True)
+
+
 TRUSTED = core.COMMON_TRUSTED + ["clingo 5.8.2 grounder/solver as the meaning of programs in the oracle"]
 
 
@@ -15,6 +24,7 @@ def run_semantic(ctx, module, level, rule, flags_list, relation, origins, extra,
                  facts_over="in", outp_choices=("auto",), one_to_one=True, assumptions=(), program_filter=None, decl_mix=True,
                  generators=()):
     core.prepare_lean(ctx, module)
+    _tick(ctx, 'lean')
     extra = list(extra)
     n_hand = len(extra)
     if corr is not None and ctx.driver_ok:
@@ -33,7 +43,9 @@ def run_semantic(ctx, module, level, rule, flags_list, relation, origins, extra,
             ctx.cov["samples"].append({"correspondence": name, "evaluations": r["evaluations"], "nontrivial": r["nontrivial"]})
     for g in generators:
         extra += [g(ctx.rng) for _ in range((40 if ctx.quick() else 1500) // max(1, len(generators)))]
+    _tick(ctx, 'correspondence + generators')
     semprop.replay_known(ctx)
+    _tick(ctx, 'replay of known witnesses')
     qn, tn = n_corpus
     qm, tm = n_mut
     cases = []
@@ -45,5 +57,7 @@ def run_semantic(ctx, module, level, rule, flags_list, relation, origins, extra,
         extra = []
     if program_filter is not None:
         cases = [c for c in cases if program_filter(c["program"])]
+    _tick(ctx, f'{len(cases)} oracle cases built')
     semprop.run_oracle(ctx, cases, None)
+    _tick(ctx, 'oracle + classification')
     return core.finish(ctx, level, TRUSTED, list(assumptions), rule)
